@@ -10,8 +10,10 @@ joined at a point that the run thread determines under the socket lock.
 
   * UI bursts: m = 3..5 connection-less sockets with one datagram each, pending at the same time, whose sizes sum
     to sendMIU - 4m + delta (delta sweeps -2..+4 with the grid index): the aggregate lands on the boundary
-  * a data link connection (initiator side connects to a named service of the target side), both directions send
-    maximum-size I PDUs with MSG_DONTWAIT while the peer's acknowledgements are pending
+  * two data link connections (each side connects to the named service of the other, so each side also *accepts* a
+    connection the peer opened); CONNECT and CC announce a connection MIU below, at and above the link MIU of the
+    announcing side's PAX; all four ends send I PDUs as large as they believe they may, with MSG_DONTWAIT, while
+    the peer's acknowledgements are pending
   * service name lookups: many names at once (SNL batches in both directions)
   * every 8th configuration idles for 14 more iterations (the run loops' idle pauses against LTO / RWT)
   * the target side answers twice at 0.9 x the RWT it announced (when its announced LTO allows that)
@@ -39,10 +41,21 @@ def pattern(tag, n):
     return bytes((tag * 29 + 7 * j + n) & 0xFF for j in range(n))
 
 
+def conn_announce(x, k, side):
+    """(MIU in the CONNECT of side's client socket, MIU in the CC of side's listening socket): below, at and above
+    the link MIU of the side's own PAX, rotating with the grid index"""
+    miu = x["miuI" if side == "i" else "miuT"]
+    shift = 0 if side == "i" else 1
+
+    def announce(mode):
+        return (min(miu, (128, 131, 200, 1000)[k % 4]), miu, min(2175, miu + 352))[mode % 3]
+    return announce(k // 5 + shift), announce(k // 5 + shift + 1)
+
+
 class App(object):
     """The application of one side.  `hook` is the terminate callable given to connect()."""
 
-    def __init__(self, side, x, k, air, shared, rounds=18):
+    def __init__(self, side, x, k, air, shared, rounds=24):
         self.side, self.x, self.k, self.air, self.shared = side, x, k, air, shared
         self.llc = None
         self.active = False
@@ -50,13 +63,16 @@ class App(object):
         self.j = 0
         self.rounds = rounds
         self.done = False
-        self.ui_rx = self.srv = self.cli = self.dlc = None
+        self.ui_rx = self.srv = self.cli = None
         self.helper = None
         self.accepted = None
         self.resolvers = []
-        self.ui_sent, self.ui_rcvd = [], []          # (tag, n) / (n, ok)
-        self.i_sent, self.i_rcvd = [], []
-        self.quota = 6
+        self.ui_sent, self.ui_rcvd = [], []          # (tag, n) / data
+        # two data link connections per side: "out" = opened by this side, "in" = opened by the peer and accepted here
+        self.dlc = {"out": None, "in": None}
+        self.i_sent, self.i_rcvd = {"out": [], "in": []}, {"out": [], "in": []}
+        self.quota = {"out": 5, "in": 5}
+        self.over = {}               # which -> (n, accepted, peer sap): one message one octet beyond the peer's limit
         self.errors = []
 
     # -- callbacks of connect() ---------------------------------------------------------------------
@@ -71,14 +87,23 @@ class App(object):
         self.ui_rx.setsockopt(nfc.llcp.SO_RCVBUF, 8)
         self.ui_rx.bind(UI_SAP)
         miu = x["miuI" if s == "i" else "miuT"]
-        self.conn_miu = min(miu, (128, 131, 1000, 2175, 200)[self.k % 5])
         self.conn_win = 1 + self.k % 3
-        if s == "t":
-            self.srv = nfc.llcp.Socket(llc, nfc.llcp.DATA_LINK_CONNECTION)
-            self.srv.setsockopt(nfc.llcp.SO_RCVMIU, self.conn_miu)
-            self.srv.setsockopt(nfc.llcp.SO_RCVBUF, self.conn_win)
-            self.srv.bind(SVC)
-            self.srv.listen(2)
+        # the connection MIU this side announces in its CONNECT (client socket) and in its CC (listening socket):
+        # below, at and above the link MIU of its own PAX.  "Above" is what a foreign peer may do; it is set on the
+        # transmission control object because LogicalLinkController.setsockopt clamps SO_RCVMIU to the link MIU.
+        # The side that receives such an announcement has to keep to the smaller of the two.
+        self.cli_miu, self.srv_miu = conn_announce(x, self.k, s)
+        # what the peer announces: on the connection opened here the peer's CC, on the accepted one its CONNECT; the
+        # peer's limit for an I PDU is the smaller of that and the link MIU of its PAX
+        p = "t" if s == "i" else "i"
+        pcli, psrv = conn_announce(x, self.k, p)
+        plink = x["miuI" if p == "i" else "miuT"]
+        self.peer_limit = {"out": min(psrv, plink), "in": min(pcli, plink)}
+        self.srv = nfc.llcp.Socket(llc, nfc.llcp.DATA_LINK_CONNECTION)
+        self.srv._tco.setsockopt(nfc.llcp.SO_RCVMIU, self.srv_miu)
+        self.srv.setsockopt(nfc.llcp.SO_RCVBUF, self.conn_win)
+        self.srv.bind(SVC)
+        self.srv.listen(2)
         return llc
 
     @staticmethod
@@ -92,9 +117,9 @@ class App(object):
     def on_connect(self, llc):
         self.active = True
         self.shared["mark_" + self.side] = len(self.air.log)
-        if self.side == "i":
+        if True:            # both sides open a connection to the peer's service
             self.cli = nfc.llcp.Socket(llc, nfc.llcp.DATA_LINK_CONNECTION)
-            self.cli.setsockopt(nfc.llcp.SO_RCVMIU, self.conn_miu)
+            self.cli._tco.setsockopt(nfc.llcp.SO_RCVMIU, self.cli_miu)
             self.cli.setsockopt(nfc.llcp.SO_RCVBUF, self.conn_win)
             self.cli.bind()
             tco = self.cli._tco
@@ -170,12 +195,12 @@ class App(object):
         while len(tq.recv_queue) > 0:
             data, peer = self.ui_rx.recvfrom()
             self.ui_rcvd.append(bytes(data))
-        # connection-oriented traffic
-        if self.side == "t" and self.dlc is None and self.accepted is not None:
-            self.dlc = self.accepted         # one iteration after accept(): the CC is on its way first (*)
-        if self.side == "t" and self.accepted is None and len(self.srv._tco.recv_queue) > 0:
+        # connection-oriented traffic: the connection the peer opened (accepted here) and the one opened here
+        if self.dlc["in"] is None and self.accepted is not None:
+            self.dlc["in"] = self.accepted   # one iteration after accept(): the CC is on its way first (*)
+        if self.accepted is None and len(self.srv._tco.recv_queue) > 0:
             self.accepted = self.srv.accept()
-        if self.side == "i" and self.dlc is None and self.helper is not None:
+        if self.dlc["out"] is None and self.helper is not None:
             tco = self.cli._tco
             with tco.lock:          # either the helper has not seen the answer yet or it is through
                 arrived = len(tco.recv_queue) > 0 or not tco.state.CONNECT
@@ -185,21 +210,36 @@ class App(object):
                     raise RuntimeError("traffic harness: connect() did not return")
                 self.helper = None
                 if tco.state.ESTABLISHED:
-                    self.dlc = self.cli
-        if self.dlc is not None:
-            d = self.dlc._tco
+                    self.dlc["out"] = self.cli
+        for which in ("in", "out"):
+            if self.dlc[which] is None:
+                continue
+            sock, d = self.dlc[which], self.dlc[which]._tco
             while len(d.recv_queue) > 0 and d.state.ESTABLISHED:
-                self.i_rcvd.append(bytes(self.dlc.recv()))
-            while self.quota > 0 and d.state.ESTABLISHED:
-                n = d.send_miu if self.quota % 3 else max(1, d.send_miu - 1 - k % 5)
+                self.i_rcvd[which].append(bytes(sock.recv()))
+            if which not in self.over and d.state.ESTABLISHED:
+                # first one message that is one octet more than the receiver allows: send() has to refuse it
+                n = self.peer_limit[which] + 1
                 try:
-                    self.dlc.send(pattern(60 + self.quota, n), nfc.llcp.MSG_DONTWAIT)
+                    sock.send(pattern(90, n), nfc.llcp.MSG_DONTWAIT)
+                    self.over[which] = (n, True, d.peer)
+                except nfc.llcp.Error as e:
+                    if e.errno == nfc.llcp.errno.EMSGSIZE:
+                        self.over[which] = (n, False, d.peer)
+                    elif e.errno != nfc.llcp.errno.EWOULDBLOCK:
+                        raise
+            while self.quota[which] > 0 and d.state.ESTABLISHED:
+                # as much as this side believes it may send on the connection
+                q = self.quota[which]
+                n = d.send_miu if q % 3 else max(1, d.send_miu - 1 - k % 5)
+                try:
+                    sock.send(pattern(60 + q + (0 if which == "in" else 10), n), nfc.llcp.MSG_DONTWAIT)
                 except nfc.llcp.Error as e:
                     if e.errno == nfc.llcp.errno.EWOULDBLOCK:
                         break
                     raise
-                self.i_sent.append((60 + self.quota, n))
-                self.quota -= 1
+                self.i_sent[which].append((60 + q + (0 if which == "in" else 10), n))
+                self.quota[which] -= 1
         if self.side == "i" and j >= self.rounds + (14 if self.k % 8 == 3 else 0):
             self.done = True                 # (every 8th configuration: an idle tail of symmetry PDUs)
 
